@@ -9,7 +9,7 @@ import os
 import subprocess
 import sys
 
-REPO = "/repo"
+REPO = os.environ.get("VERIF_REPO", "/repo")     # (seedall.py runs several of these in parallel on scratch worktrees)
 VERIF = os.path.dirname(os.path.dirname(os.path.abspath(__file__)))
 
 
@@ -20,7 +20,7 @@ def sh(cmd, **kw):
 def demo(path):
     if path == "-":
         return None
-    p = sh(["/venv/bin/python", os.path.abspath(path)], cwd=REPO)
+    p = sh(["/venv/bin/python", os.path.abspath(path)], cwd=REPO, env=dict(os.environ, PYTHONPATH=REPO))
     return p.returncode
 
 
@@ -43,7 +43,7 @@ def main():
             res["baseline"] = b.stdout.decode().strip().splitlines()[0] if b.stdout else "?"
             res["baseline_rc"] = b.returncode
         for p in props:
-            env = dict(os.environ, VERIF_EVIDENCE_DIR="/tmp/seedtest_evidence")
+            env = dict(os.environ, VERIF_EVIDENCE_DIR=os.environ.get("VERIF_SEEDTEST_EVIDENCE", "/tmp/seedtest_evidence"))
             extra = ["--no-build"] if os.environ.get("VERIF_NO_BUILD") else []      # (developer shortcut while proofs are being reworked)
             r = sh(["/venv/bin/python", os.path.join(VERIF, "harness", "vcheck.py"), "--property", p, "--tier", "quick"] + extra, cwd=VERIF, env=env)
             out = r.stdout.decode()
